@@ -66,3 +66,22 @@ Definition model_speaks (k : ikind) (x : label) : bool :=
   | LPer _ _, ITs => false
   | _, _ => true
   end.
+
+(* ---- any other duplicate-free pandas index (pd.Index of ints / strs, an irregular DatetimeIndex such as month starts):
+   pandas' hash-table engine answers the position of the label; labels that are not in the index raise KeyError.  (With
+   duplicates pandas answers slices / masks: not modelled, never generated.) ---- *)
+Definition plain_get_loc (ls : list label) (x : label) : outcome loc :=
+  match index_from 0 x ls with Some i => Ret (LPos i true) | None => Raise KeyError end.
+Definition plain_contains (ls : list label) (x : label) : bool :=
+  match index_from 0 x ls with Some _ => true | None => false end.
+(* what kind of index a list of labels is, for deciding which recorded labels the model speaks about *)
+Definition has_per (ls : list label) : bool := existsb (fun l => match l with LPer _ _ => true | _ => false end) ls.
+Definition has_ts (ls : list label) : bool := existsb (fun l => match l with LTs _ => true | _ => false end) ls.
+Definition plain_speaks (ls : list label) (x : label) : bool :=
+  match ls, x with
+  | [], (LStr _ | LTs _ | LPer _ _) => false            (* an empty index: its kind cannot be read off its labels *)
+  | _, LStr _ => negb (has_per ls || has_ts ls)          (* text is parsed by Period / Datetime indexes *)
+  | _, LTs _ => negb (has_per ls)                         (* a Timestamp is converted to a period by a PeriodIndex *)
+  | _, LPer _ _ => negb (has_ts ls)
+  | _, _ => true
+  end.
